@@ -1,21 +1,21 @@
 import Pdpy11.Spec.Isa
 /-
-C01, thorough tier only (≈ 12 min of kernel evaluation, not part of the default build): the
-independent ISA decoder inverts the ISA encoding at the level of the opcode word, for every
-canonical instruction and *every* combination of field values (60 k words) — complete
-evaluation, no sampling.  Together with `C01.opcode_word_is_isa_encoding` (the word
-`get_opcode` produces is that encoding, for all operand values): the decoder recovers the
-operation and the field values from what the assembler emits.
+C01, thorough tier (about a minute of checking, most of it the pairwise table fact): the independent ISA decoder inverts the
+ISA encoding at the level of the opcode word, for every canonical instruction and *every* combination of field values.
+Proved, not enumerated: the operand fields of every format fill the low `bits` bits of the word (`clear_eq`, by arithmetic
+for each of the 16 formats), so a word matches an entry exactly when it lies in `[base, base + 2^bits)` (`matches_iff`);
+the encoded word lies in the range of its own entry (`in_range`); and the ranges of entries with different names do not
+meet (`table_apart`, one kernel evaluation over the pairs of the table).  An earlier version evaluated all 63 735 words in the
+kernel: 45 minutes and 18 GB.  Together with `C01.opcode_word_is_isa_encoding` (the word `get_opcode` produces is that
+encoding, for all operand values): the decoder recovers the operation and the field values from what the assembler emits.
 -/
 namespace Pdpy11.Deep.C01Decode
 open Pdpy11.Spec.Isa
 
-/-- all tuples of field values -/
 def tuples : List Field → List (List Nat)
   | [] => [[]]
   | f :: rest => (List.range (2 ^ f.width)).flatMap (fun v => (tuples rest).map (v :: ·))
 
-/-- the ISA encoding: base opcode plus every field value at its position -/
 def enc (b : Nat) : List Field → List Nat → Nat
   | f :: fs, v :: vs => enc (b + v * 2 ^ f.shift) fs vs
   | _, _ => b
@@ -25,15 +25,90 @@ def extractOk (c : Canon) : Bool :=
     let w := enc c.base (fields c.fmt) us
     matchesCanon c w && ((fields c.fmt).map (fieldOf w) == us))
 
-/-- the encoded word matches its own entry and every field reads back as the value put in -/
-theorem fields_read_back : canon.all extractOk = true := by decide +kernel
-
 def findOk (c : Canon) : Bool :=
   (tuples (fields c.fmt)).all (fun us =>
     let w := enc c.base (fields c.fmt) us
     (canon.find? (fun c' => matchesCanon c' w)).map (·.name) == some c.name)
 
-/-- the decoder's table search finds exactly the instruction that was encoded -/
-theorem decoder_finds_the_instruction : canon.all findOk = true := by decide +kernel
+/-- the operand fields of every format fill the low `bits` bits of the word -/
+def bits : Fmt → Nat
+  | .none => 0 | .dd => 6 | .ssdd => 12 | .rdd => 9 | .ssr => 9 | .r => 3 | .n3 => 3 | .n6 => 6 | .n8 => 8
+  | .br8 => 8 | .rbr6 => 9 | .fop => 6 | .fsrcac => 8 | .acfdst => 8 | .srcac => 8 | .acdst => 8
+
+theorem clear_eq (fmt : Fmt) (w : Nat) : clearFields w (fields fmt) = w / 2 ^ bits fmt * 2 ^ bits fmt := by
+  cases fmt <;> simp [fields, clearFields, fieldOf, bits] <;> omega
+
+theorem tuples_shape (fmt : Fmt) (b : Nat) (us : List Nat) (h : us ∈ tuples (fields fmt)) :
+    enc 0 (fields fmt) us < 2 ^ bits fmt ∧ enc b (fields fmt) us = b + enc 0 (fields fmt) us ∧
+      (b % 2 ^ bits fmt = 0 → (fields fmt).map (fieldOf (b + enc 0 (fields fmt) us)) = us) := by
+  cases fmt <;> simp only [fields, tuples, List.mem_flatMap, List.mem_range, List.mem_map, List.mem_singleton] at h
+  case none =>
+    subst h; simp [bits, enc, fields]
+  case dd | r | n3 | n6 | n8 | br8 | fop =>
+    obtain ⟨v1, h1, _, rfl, rfl⟩ := h
+    refine ⟨?_, ?_, ?_⟩ <;> simp [fields, bits, enc, fieldOf] at * <;> omega
+  case ssdd | rdd | ssr | rbr6 | fsrcac | acfdst | srcac | acdst =>
+    obtain ⟨v1, h1, _, ⟨v2, h2, _, rfl, rfl⟩, rfl⟩ := h
+    refine ⟨?_, ?_, ?_⟩ <;> simp [fields, bits, enc, fieldOf] at * <;> omega
+
+/-- table facts, evaluated once over the 215 entries (and their pairs): every base opcode leaves the operand bits free, and
+the ranges of words `[base, base + 2^bits)` of two entries with different names do not meet -/
+def aligned (c : Canon) : Bool := c.base % 2 ^ bits c.fmt == 0
+def apart (c c' : Canon) : Bool := c.name == c'.name || c.base + 2 ^ bits c.fmt ≤ c'.base || c'.base + 2 ^ bits c'.fmt ≤ c.base
+
+theorem table_aligned : canon.all aligned = true := by decide +kernel
+theorem table_apart : canon.all (fun c => canon.all (apart c)) = true := by decide +kernel
+
+/-- a word matches an entry exactly when it lies in the entry's range -/
+theorem matches_iff (c : Canon) (w : Nat) (ha : aligned c = true) :
+    matchesCanon c w = true ↔ c.base ≤ w ∧ w < c.base + 2 ^ bits c.fmt := by
+  obtain ⟨name, base, fmt⟩ := c
+  simp only [matchesCanon, clear_eq, aligned, beq_iff_eq] at *
+  cases fmt <;> simp [bits] at * <;> omega
+
+theorem in_range (c : Canon) (us : List Nat) (h : us ∈ tuples (fields c.fmt)) :
+    c.base ≤ enc c.base (fields c.fmt) us ∧ enc c.base (fields c.fmt) us < c.base + 2 ^ bits c.fmt := by
+  obtain ⟨h1, h2, _⟩ := tuples_shape c.fmt c.base us h
+  omega
+
+/-- the encoded word matches its own entry and every field reads back as the value put in — for every entry and every
+combination of field values -/
+theorem fields_read_back : canon.all extractOk = true := by
+  rw [List.all_eq_true]
+  intro c hc
+  have ha : aligned c = true := List.all_eq_true.mp table_aligned c hc
+  simp only [extractOk, List.all_eq_true, Bool.and_eq_true, beq_iff_eq]
+  intro us hus
+  obtain ⟨h1, h2, h3⟩ := tuples_shape c.fmt c.base us hus
+  refine ⟨(matches_iff c _ ha).mpr (in_range c us hus), ?_⟩
+  rw [h2]
+  exact h3 (by simpa [aligned] using ha)
+
+/-- the decoder's table search finds exactly the instruction that was encoded — for every entry and every combination of
+field values -/
+theorem decoder_finds_the_instruction : canon.all findOk = true := by
+  rw [List.all_eq_true]
+  intro c hc
+  have ha : aligned c = true := List.all_eq_true.mp table_aligned c hc
+  simp only [findOk, List.all_eq_true]
+  intro us hus
+  have hr := in_range c us hus
+  generalize enc c.base (fields c.fmt) us = w at hr
+  cases hf : canon.find? (fun c' => matchesCanon c' w) with
+  | none =>
+    have := List.find?_eq_none.mp hf c hc
+    simp [(matches_iff c w ha).mpr hr] at this
+  | some c' =>
+    have hm : matchesCanon c' w = true := by simpa using List.find?_some hf
+    have hc' : c' ∈ canon := List.mem_of_find?_eq_some hf
+    have ha' : aligned c' = true := List.all_eq_true.mp table_aligned c' hc'
+    have hr' := (matches_iff c' w ha').mp hm
+    have hap : apart c c' = true := List.all_eq_true.mp (List.all_eq_true.mp table_apart c hc) c' hc'
+    simp only [apart, Bool.or_eq_true, beq_iff_eq, decide_eq_true_eq] at hap
+    simp only [Option.map_some, beq_iff_eq, Option.some.injEq]
+    rcases hap with (h | h) | h
+    · exact h.symm
+    · omega
+    · omega
 
 end Pdpy11.Deep.C01Decode
